@@ -500,7 +500,7 @@ class FunctionVerifier:
     def run_path(self, script):
         c = self.c
         U = self.cset.U
-        I = Interp(self.cset, script=script)
+        I = Interp(self.cset, script=script, feas_timeout=getattr(c, 'feas_timeout', 2000))
         I.translator = self.tr
         I.fn_contract = c
         I.extern = self.extern
